@@ -232,8 +232,10 @@ ob("c05::div_f64_exact_clauses", "C05", timeout=600, functions=["Div<&f64> for &
 ob("c05::div_f64_pow2_exact", "C05", timeout=600, functions=["Div<&f64> for &TwoFloat"])
 ob("c05::div_zero_numerator_f64", "C05", timeout=900, functions=["Div<&f64> for &TwoFloat", "DivAssign<&f64> for TwoFloat"])
 ob("c05::div_zero_numerator_tf", "C05", tier="thorough", timeout=2400, functions=["Div<&TwoFloat> for &TwoFloat", "Div<&TwoFloat> for &f64"])
+ob("c05::long_division_accuracy_sample", "C05", cls="ground", native=True, functions=["Div<&TwoFloat> for &TwoFloat", "Div<&TwoFloat> for &f64", "DivAssign<&TwoFloat> for TwoFloat", "TwoFloat::recip (16*2^-106 on 600 sample pairs)"])
 ob("c05::long_division_exact_points", "C05", cls="ground", native=True, functions=["Div<&TwoFloat> for &TwoFloat", "DivAssign<&TwoFloat> for TwoFloat", "TwoFloat::recip"])
 ob("c19::integers_exact", "C19", cls="ground", native=True, functions=["Rem/RemAssign impls", "TwoFloat::div_euclid", "TwoFloat::rem_euclid"])
+ob("c19::tolerance_sample", "C19", cls="ground", native=True, functions=["Rem impls, TwoFloat::div_euclid, TwoFloat::rem_euclid (tolerance clause on 500 sample pairs)"])
 ob("c19::big_integers_exact", "C19", cls="ground", native=True, functions=["Rem impls", "TwoFloat::div_euclid", "TwoFloat::rem_euclid"])
 for _n in ("tf_tf", "tf_f64", "f64_tf"):
     ob("c19::rem_is_truncated_formula_" + _n, "C19", cls="miter", timeout=300, functions=["Rem impls"])
